@@ -28,6 +28,12 @@ HARNESSES = {
     # initiator: first Logon and a Logout from another task (the only send allowed before the Logon reply)
     "logon_logout": dict(pre=-2, tasks=[("logon",), ("logout",)]),
     # transport failure while senders are parked in drain(), then one more sender
+    # a sender whose message cannot be put on the wire (text that is not encodable as utf-8) between ordinary senders:
+    # whatever it is told, the numbers of the others stay dense and the stored counter ends at highest + 1
+    "send_bad": dict(pre=0, tasks=[("sendbad",), ("send", "x1")]),
+    # initiator: first Logon parked in the application's on_state_change hook while another task (watchdog /
+    # application) drops the connection, then the hook returns
+    "logon_drop": dict(pre=-2, attempts=True, tasks=[("logon",), ("drop",)]),
     "send_send_fail": dict(pre=0, fail=True, tasks=[("send", "x1"), ("send", "x2"), ("send", "x3")]),
 }
 
@@ -135,6 +141,11 @@ def run_one(hname, s):
                 elif t[0] == "logout":
                     from asyncfix import FMsg
                     started[i] = loop.create_task(c.send_msg(FIXMessage(FMsg.LOGOUT)))
+                elif t[0] == "sendbad":
+                    started[i] = loop.create_task(c.send_msg(FIXMessage("D", {11: "bad", 58: "bad \udc80 text"})))
+                elif t[0] == "drop":
+                    from asyncfix.connection import ConnectionState
+                    started[i] = loop.create_task(c.disconnect(ConnectionState.DISCONNECTED_BROKEN_CONN))
                 elif t[0] == "testreq":
                     started[i] = loop.create_task(c.send_test_req())
                 elif t[0] == "feed":
@@ -158,7 +169,7 @@ def run_one(hname, s):
                 r = task_result(t)
                 results[i] = (r[0], type(r[1]).__name__ if r[0] == "exc" else None)
         frames = []
-        for raw in (w.writer.attempts[base_attempts:] if h.get("fail") else w.writer.out[base_frames:]):
+        for raw in (w.writer.attempts[base_attempts:] if (h.get("fail") or h.get("attempts")) else w.writer.out[base_frames:]):
             f, err = refs.try_parse(raw)
             d = refs.fdict(f) if f else {"35": "?"}
             frames.append((d.get("35"), int(d.get("34", 0) or 0), d.get("43"), d.get("11"), d.get("36")))
